@@ -126,7 +126,9 @@ func execOpt(env Env, t *world.TaskSpec, out *Outcome) {
 			var tap *tapCollector
 			mark := len(out.Viol)
 			if mode && prop == "C14" {
-				tap = newTap(env, rp)
+				// no learned-constraint tap here: while optimising, what is learned follows from the problem
+				// AND the cost bounds appended so far, and following those bounds would tie the oracle to the
+				// name of an internal function (false alarm F7); the tap is used in the decision worlds only
 				env.Phase("cp")
 			}
 			var stop chan struct{}
